@@ -8,6 +8,7 @@ import EinxModel.Driver.Cse
 import EinxModel.Driver.CseTrees
 import EinxModel.Driver.Cache
 import EinxModel.Driver.CacheConc
+import EinxModel.Driver.NumHash
 import EinxModel.Driver.Concurrent
 import EinxModel.Driver.IR
 import EinxModel.Driver.Order
@@ -22,10 +23,13 @@ import EinxModel.Driver.Optimize
 import EinxModel.Driver.Denote
 import EinxModel.Driver.Shorthand
 import EinxModel.Driver.Reject
+import EinxModel.Driver.Grammar
 import EinxModel.Driver.OptDag
 import EinxModel.Driver.Lower
+import EinxModel.Driver.Lower2
 import EinxModel.Driver.Xlate
 import EinxModel.Driver.Exec
+import EinxModel.Driver.AtLower
 /-! Line-protocol driver: one JSON request per input line, one JSON answer per output line. -/
 open Lean Einx.Driver
 
@@ -38,10 +42,11 @@ def dispatch (j : Json) : R Json := do
   | "notation_nf" => Einx.Driver.NotationNF.handle j
   | "cache-table" | "freeze" | "pyeq" | "pyhash" | "memo" | "stack" => Einx.Driver.Cache.handle j
   | "cache_sched" | "cache_explore" => Einx.Driver.CacheConc.handle j
+  | "numhash" => Einx.Driver.NumHash.handle j
   | "solve" | "checksat" | "checkaxes" => Einx.Driver.Solve.handle j
   | "shorthand" => Einx.Driver.Shorthand.handle j
   | "value_range" => Einx.Driver.Cse.handle j
-  | "cse_trees" | "cse_check" | "cse_enum" => Einx.Driver.CseTrees.handle j
+  | "cse_trees" | "cse_check" | "cse_enum" | "forest_sys" => Einx.Driver.CseTrees.handle j
   | "ir_run" | "validate" | "denote" | "norm_arith" => Einx.Driver.IR.handle j
   | "join_exprs" | "cse_replace" | "implicit_output" => Einx.Driver.Order.handle j
   | "adapt_check" | "split_kwargs" | "expr_to_axis" | "elementwise_shape" => Einx.Driver.Adapt.handle j
@@ -54,10 +59,13 @@ def dispatch (j : Json) : R Json := do
   | "equiv" | "equiv_progs" | "kernel" => Einx.Driver.Optimize.handle j
   | "denote_fun" => Einx.Driver.Denote.handle j
   | "reject_spec" | "elab_rules" => Einx.Driver.Reject.handle j
+  | "grammar_spec" => Einx.Driver.Grammar.handle j
   | "optdag" => Einx.Driver.OptDag.handle j
   | "lower_model" => Einx.Driver.Lower.handle j
+  | "lower_generic" => Einx.Driver.Lower2.handle j
   | "xlate_stb" | "xlate_diag" | "xlate_ids" | "xlate_unravel" | "py_prelude" => Einx.Driver.Xlate.handle j
   | "exec_check" => Einx.Driver.Exec.handle j
+  | "lower_at" => Einx.Driver.AtLower.handle j
   | "update_denote" | "update_lower" | "update_get" | "update_addr" | "np_put" | "np_ufunc_at" | "assignments" =>
     Einx.Driver.Update.handle j
   | k => throw s!"unknown kind {k}"
